@@ -7,6 +7,18 @@ P = {
  "C01": ("M-DUR i128 model of + - neg abs *i64 /i64 and compound/Unit forms; all lattice pairs + random pairs", "3.C01"),
  "C02": ("canonical-form predicate and integer read-back model on every constructor/accessor", "3.C02"),
  "C03": ("total-order / equality oracle on pairs, triples and sorts", "3.C03"),
+ "C04": ("M-DUR/M-SCALE model of Epoch +/- Duration, identities and cross-scale differences over all 81 scale pairs", "3.C04"),
+ "C05": ("M-SCALE zero points derived from the stated civil reference dates; all 36 ordered pairs per sample", "3.C05"),
+ "C06": ("M-LEAP: embedded IERS announcements cross-checked with the shipped list file and NAIF kernel; dense +-40 s lattice around all 28 entries, both directions, providers from files", "3.C06"),
+ "C07": ("M-DYN closed forms in i128 + f64 periodic term; 30 ns / 20 ns / order tolerances of the statement", "3.C07"),
+ "C08": ("M-CAL accept/reject partition and exact day count over enumerated calendar days, rejection lattice, leap-second days", "3.C08"),
+ "C09": ("M-CAL civil-from-days fields, harness-built Display text, rebuild from printed fields, other-scale renderings", "3.C09"),
+ "C11": ("integer div/mod decomposition, harness-built text, parse/serde round trips, unit spellings and offsets", "3.C11"),
+ "C14": ("floor/ceil/round model on i128 counts (Duration and Epoch forms)", "3.C14"),
+ "C16": ("civil weekday via M-SCALE + M-CAL; exhaustive Z/7 arithmetic; next/previous", "3.C16"),
+ "C17": ("affine view model; float views decided exactly against the rational within 8 ulp", "3.C17"),
+ "C18": ("M-FLOAT: exact rational comparison out, bit-exact trunc(IEEE product) in, Duration*f64 tolerance, logical step budget hook", "3.C18"),
+ "C20": ("week/time-of-week, ns counters, day-of-year models", "3.C20"),
 }
 IMPLEMENTED = sorted(P.keys())
 ALL = ["C%02d" % i for i in range(1, 21)]
